@@ -205,6 +205,79 @@ def c11_current_state(tier="quick", seed=0):
                witness=(bad[0] if bad else None), confirmed=True if bad else None, domain=n)]
 
 
+def _hostargs_chunk(job):
+    import itertools
+    from microjs import Context
+    from microjs.values import UNDEFINED, NULL, JSArray, JSObject
+    form, tuples = job
+    vals = {"1": "n1", "'a'": "sa", "undefined": "U", "null": "N", "true": "bT", "[7]": "A1", "({k: 1})": "O"}
+
+    def tag(v):
+        if v is UNDEFINED:
+            return "U"
+        if v is NULL:
+            return "N"
+        if isinstance(v, bool):
+            return "bT" if v else "bF"
+        if isinstance(v, (int, float)):
+            return "n" + str(int(v))
+        if isinstance(v, str):
+            return "s" + v
+        if isinstance(v, JSArray):
+            return "A" + str(len(v._elements))
+        if isinstance(v, JSObject):
+            return "O"
+        return "?" + type(v).__name__
+    calls = []
+    c = Context(time_limit=20)
+    c.set("rec", lambda *a: calls.append([tag(x) for x in a]))
+    c.eval("var api = {rec: rec, nested: {rec: rec}};")
+    bad, n = None, 0
+    for tup in tuples:
+        args = ", ".join(tup)
+        sep = ", " if tup else ""
+        if "{Q}" in form:
+            import json as _j
+            src = form.replace("{Q}", _j.dumps("rec(" + args + ")"))
+        else:
+            src = form.replace("{A}", args).replace("{,A}", sep + args)
+        del calls[:]
+        n += 1
+        try:
+            c.eval(src)
+            got = calls[0] if len(calls) == 1 else f"{len(calls)} calls"
+        except BaseException as e:  # noqa
+            got = f"!{type(e).__name__}: {e}"[:100]
+            c = Context(time_limit=20)
+            c.set("rec", lambda *a: calls.append([tag(x) for x in a]))
+            c.eval("var api = {rec: rec, nested: {rec: rec}};")
+        want = [vals[t] for t in tup]
+        if got != want and bad is None:
+            bad = (src, f"the host function received {got}, the script passed {want}")
+    return form, n, bad
+
+
+HOSTARG_FORMS = ["rec({A})", "api.rec({A})", "api.nested.rec({A})", "api['rec']({A})", "rec.call(null{,A})", "rec.apply(null, [{A}])", "rec.bind(null)({A})", "rec.bind(null{,A})()", "(0, rec)({A})",
+                 "(function () { return rec({A}) })()", "[0].forEach(function () { rec({A}) })", "var f = rec; f({A})", "eval({Q})", "new Function('return ' + {Q})()",
+                 "(function () { return rec.apply(null, arguments) })({A})", "api.rec.call(api{,A})"]
+
+
+@groups.group(id="C11.bounded.host-arguments", prop="C11", kind="B", functions=["microjs.vm:VM._call_function", "microjs.vm:VM._call_method", "microjs.vm:VM._make_callable_method"])
+def c11_host_arguments(tier="quick", seed=0):
+    """an exposed callable receives exactly the arguments the script wrote, in order -- every tuple of up to three values
+    from {number, string, undefined, null, boolean, array, object} (undefined and null anywhere, also last and alone),
+    through every call form"""
+    import itertools, multiprocessing as mp
+    vals = ["1", "'a'", "undefined", "null", "true", "[7]", "({k: 1})"]
+    tuples = [t for k in range(0, 4) for t in itertools.product(vals, repeat=k)]
+    if tier != "thorough":
+        tuples = [t for t in tuples if len(t) < 3 or "undefined" in t or "null" in t]
+    with mp.get_context("fork").Pool(8) as pool:
+        res = pool.map(_hostargs_chunk, [(f, tuples) for f in HOSTARG_FORMS])
+    return [ob(f"C11.bounded.host-arguments.{i:02d}", bad is None, "B", f"{form}: {n} argument tuples" if bad is None else f"{bad[0]}: {bad[1]}",
+               witness=(bad[0] if bad else None), confirmed=True if bad else None, domain=n) for i, (form, n, bad) in enumerate(res)]
+
+
 @groups.group(id="C11.struct.process-state", prop="C11", kind="K3", functions=["microjs (module-level state)"])
 def c11_process_state(tier="quick", seed=0):
     """a conversion depends on the value converted only: no memo, cache or default-argument container survives from one
